@@ -102,9 +102,14 @@ class EnumCls:
 
 
 class Interp:
-    def __init__(self, src, env, max_steps=200000, max_effects=200, modules=None):
+    def __init__(self, src, env, max_steps=200000, max_effects=200, modules=None, perturb=False):
         self.tree = ast.parse(src) if isinstance(src, str) else src
         self.env = env
+        # perturb: every non-integral value of a constant subexpression is moved by one unit in the last place.
+        # The transpiler prints folded values with 16 significant digits; the distance between this run and the
+        # plain one tells how far such a rounding can carry in THIS program (conditioning of the trace).
+        self.perturb = perturb
+        self._constexpr_cache = {}
         self.g = {}
         self.funcs = {}
         self.stack = [0.0] * 512
@@ -406,7 +411,30 @@ class Interp:
         finally:
             self._in_test -= 1
 
+    def _syntactic_constant(self, e):
+        k = id(e)
+        c = self._constexpr_cache.get(k)
+        if c is None:
+            if isinstance(e, ast.Constant):
+                c = isinstance(e.value, (int, float, bool))
+            elif isinstance(e, (ast.BinOp, ast.UnaryOp, ast.Compare, ast.BoolOp, ast.IfExp)):
+                c = all(self._syntactic_constant(x) for x in ast.iter_child_nodes(e) if isinstance(x, ast.expr))
+            elif isinstance(e, ast.Call):
+                c = isinstance(e.func, ast.Name) and e.func.id not in self.funcs and not e.keywords and bool(e.args) and all(self._syntactic_constant(x) for x in e.args)
+            elif isinstance(e, ast.Name):
+                c = e.id in ("pi", "tau", "rgas")
+            else:
+                c = False
+            self._constexpr_cache[k] = c
+        return c
+
     def ev(self, e, loc, gl, G, F):
+        v = self._ev(e, loc, gl, G, F)
+        if self.perturb and isinstance(v, float) and type(e) in (ast.BinOp, ast.Call, ast.UnaryOp, ast.Constant) and v == v and abs(v) != math.inf and v != int(v) and self._syntactic_constant(e):
+            v = v * (1.0 + 2.0**-52)
+        return v
+
+    def _ev(self, e, loc, gl, G, F):
         T = type(e)
         if T is ast.Constant:
             v = e.value
